@@ -37,6 +37,7 @@ PARTS = {
       T('refuse-picky-picky6x2', 'base', 'prop=C05', 'keys=picky', 'vals=picky', 'nkeys=6', 'nvals=2'),
       T('refuse-picky-int5x2-asan', 'asan', 'prop=C05', 'keys=picky', 'vals=int', 'nkeys=5', 'nvals=2'),
       T('refuse-int-picky-two4', 'base', 'prop=C05', 'keys=int', 'vals=picky', 'two=1', 'nkeys=4', 'nvals=1'),
+      T('refuse-picky-picky4-leaky', 'base', 'prop=C05', 'keys=picky', 'vals=picky', 'nkeys=4', 'nvals=1', 'leaky=1'),   # known finding tree-set-refused-value-leaks-key
       # cross-type assignment: the target's old contents (other element types, Probe on either side) finalised exactly once
       T('cross-int-probe6x2', 'base', 'prop=C05', 'keys=int', 'vals=probe', 'nkeys=6', 'nvals=2', 'cross=1', 'table=1'),
       T('cross-int-int6x2', 'base', 'prop=C05', 'keys=int', 'vals=int', 'nkeys=6', 'nvals=2', 'cross=1', 'table=1'),
@@ -64,6 +65,7 @@ PARTS = {
       T('refuse-picky-picky8x2', 'base', 'prop=C05', 'keys=picky', 'vals=picky', 'nkeys=8', 'nvals=2'),
       T('refuse-picky-int7x2-asan', 'asan', 'prop=C05', 'keys=picky', 'vals=int', 'nkeys=7', 'nvals=2'),
       T('refuse-int-picky-two6', 'base', 'prop=C05', 'keys=int', 'vals=picky', 'two=1', 'nkeys=6', 'nvals=1'),
+      T('refuse-picky-picky5-leaky', 'base', 'prop=C05', 'keys=picky', 'vals=picky', 'nkeys=5', 'nvals=1', 'leaky=1'),
       T('cross-int-probe8x2', 'base', 'prop=C05', 'keys=int', 'vals=probe', 'nkeys=8', 'nvals=2', 'cross=1', 'table=1'),
       T('cross-int-int8x2', 'base', 'prop=C05', 'keys=int', 'vals=int', 'nkeys=8', 'nvals=2', 'cross=1', 'table=1'),
       T('cross-probe-blob7x2-asan', 'asan', 'prop=C05', 'keys=probe', 'vals=blob', 'nkeys=7', 'nvals=2', 'cross=1', 'table=1'),
